@@ -800,6 +800,158 @@ theorem svg_arc_roundtrip (H : ExactTrig (K := K) exactAngle) (S : SinSign K) (a
   obtain ⟨r1, r2, r3, _, r5, r6⟩ := svg_arc_roundtrip_of_exact H a h1 h2 h3 hfm
   exact ⟨r1, r2, r3, r5, r6, svg_arc_large_flag H a h1 h2 h3 S hfm⟩
 
+/-! ## §5 A quadratic piece stays within a fixed fraction of the radius of the true arc -/
+
+/-- squared distance -/
+noncomputable def sqDist (p c : P K) : K := (p.x - c.x) * (p.x - c.x) + (p.y - c.y) * (p.y - c.y)
+
+/-- the `i`-th quadratic piece as a function of its start angle and step
+(`quadPiece arc step i = quadAt arc (angleAt arc step i) step` up to `angleAt_succ`) -/
+noncomputable def quadAt (arc : Arc K) (a1 d : K) : Quad K :=
+  ⟨pointAt arc a1, quadCtrl arc a1 d, pointAt arc (a1 + d)⟩
+
+/-- the pieces emitted by lyon are `quadAt` at the step angles -/
+theorem quadPiece_eq_quadAt (arc : Arc K) (step : K) (i : Nat) :
+    quadPiece arc step i = quadAt arc (angleAt arc step i) step := by
+  simp only [quadPiece, quadAt, angleAt_succ]
+
+/-- lyon's step never exceeds 45°: `|sweep_angle / n_steps * sign| ≤ π/4` because
+`n_steps = ⌈sweep_angle / (π/4)⌉ ≥ sweep_angle / (π/4)` (law of `ceil`, hypothesis `hceil`) -/
+theorem stepQ_le_quarter (arc : Arc K) (hpi : 0 < (Transc.pi : K))
+    (hceil : effSweep arc / fracPi4 ≤ nStepsQ arc) (hn : 0 < nStepsQ arc) :
+    |stepQ arc| ≤ Transc.pi / 4 := by
+  have h4 : (fracPi4 : K) = Transc.pi / 4 := by simp only [fracPi4, geom, Nat.cast_ofNat]
+  have hsg : |signum arc.sweep| = (1 : K) := by
+    unfold signum; simp only [sc_zero, sc_one]; split_ifs <;> simp
+  have he : 0 ≤ effSweep arc := by
+    simp only [effSweep, geom, Nat.cast_ofNat]
+    exact le_min (abs_nonneg _) (by positivity)
+  rw [h4] at hceil
+  have hq : 0 < (Transc.pi : K) / 4 := by positivity
+  simp only [stepQ, stepOf]
+  rw [abs_mul, hsg, mul_one, abs_of_nonneg (div_nonneg he (le_of_lt hn)), div_le_iff₀ hn]
+  rw [div_le_iff₀ hq] at hceil
+  linarith
+
+/-- core identity on the unit circle, in the orthonormal frame (radius, tangent) at the start
+point: with `c = cos(δ/2)`, `sn = sin(δ/2)`, `τ = tan(δ/2)` the quadratic is
+`(1 − 2t²sn², 2t(1−t)τ + 2t²·sn·c)` and its squared norm exceeds 1 by a perfect square. -/
+theorem quad_unit_dev (c sn τ t : K) (hu : c * c + sn * sn = 1) (hτ : τ * c = sn) :
+    (1 - 2 * t * t * (sn * sn)) * (1 - 2 * t * t * (sn * sn))
+      + (2 * t * (1 - t) * τ + 2 * t * t * (sn * c)) * (2 * t * (1 - t) * τ + 2 * t * t * (sn * c)) - 1
+    = (2 * sn * τ * (t * (1 - t))) * (2 * sn * τ * (t * (1 - t))) := by
+  subst hτ
+  linear_combination (4 * t ^ 4 * τ ^ 2 * (c * c) - 4 * t ^ 2 * (1 - t) ^ 2 * τ ^ 2) * hu
+
+/-- **deviation of one quadratic piece of a circular arc, exactly.**  For a circle (`radii = (r, r)`,
+any centre, any x-rotation), any start angle `a1`, any step `δ` with half-angle data
+`c = cos(δ/2) ≠ 0`, `sn = sin(δ/2)` (hypotheses `hcos hsin htan`: the double-angle formulas and
+`tan(δ/2)·c = sn`) and any parameter `t`:
+`|Q(t) − centre|² − r² = r²·(2·sn·tan(δ/2)·t(1−t))²`.
+So the piece never enters the circle, touches it at both ends, and is farthest at `t = 1/2`. -/
+theorem quad_arc_deviation_circle_eq (arc : Arc K) (r a1 d t c sn : K) (hr : arc.radii = ⟨r, r⟩)
+    (hx : Transc.cos arc.xrot * Transc.cos arc.xrot + Transc.sin arc.xrot * Transc.sin arc.xrot = 1)
+    (h1 : Transc.cos a1 * Transc.cos a1 + Transc.sin a1 * Transc.sin a1 = 1)
+    (hc : Transc.cos (a1 + d) = Transc.cos a1 * Transc.cos d - Transc.sin a1 * Transc.sin d)
+    (hs : Transc.sin (a1 + d) = Transc.sin a1 * Transc.cos d + Transc.cos a1 * Transc.sin d)
+    (hu : c * c + sn * sn = 1)
+    (hcos : Transc.cos d = 1 - 2 * (sn * sn)) (hsin : Transc.sin d = 2 * (sn * c))
+    (htan : Transc.tan (d * Scalar.half) * c = sn) :
+    sqDist ((quadAt arc a1 d).sample t) arc.center - r * r
+      = r * r * ((2 * sn * Transc.tan (d * Scalar.half) * (t * (1 - t)))
+          * (2 * sn * Transc.tan (d * Scalar.half) * (t * (1 - t)))) := by
+  have key := quad_unit_dev c sn (Transc.tan (d * Scalar.half)) t hu htan
+  simp only [quadAt, quadCtrl]
+  generalize Transc.tan (d * Scalar.half) = τ at htan key ⊢
+  simp only [sqDist, Quad.sample, pointAt, tangentAtAngle, Arc.sampleEllipse, Arc.rotate, geom, hc, hs,
+    hr, hcos, hsin, Nat.cast_ofNat, Nat.cast_one]
+  generalize Transc.cos a1 = c1 at h1 ⊢
+  generalize Transc.sin a1 = s1 at h1 ⊢
+  generalize Transc.cos arc.xrot = cx at hx ⊢
+  generalize Transc.sin arc.xrot = sx at hx ⊢
+  linear_combination
+    (r * r * ((1 - 2 * t * t * (sn * sn)) * (1 - 2 * t * t * (sn * sn))
+      + (2 * t * (1 - t) * τ + 2 * t * t * (sn * c)) * (2 * t * (1 - t) * τ + 2 * t * t * (sn * c)))
+      * (cx * cx + sx * sx)) * h1
+    + (r * r * ((1 - 2 * t * t * (sn * sn)) * (1 - 2 * t * t * (sn * sn))
+      + (2 * t * (1 - t) * τ + 2 * t * t * (sn * c)) * (2 * t * (1 - t) * τ + 2 * t * t * (sn * c)))) * hx
+    + (r * r) * key
+
+/-- **`quad_arc_deviation_circle`**: for `t ∈ [0,1]` and `cos(δ/2) > 0` the squared distance of the
+quadratic piece from the centre lies between `r²` and `r²·(1 + (sin²(δ/2) / (2cos(δ/2)))²)`. -/
+theorem quad_arc_deviation_circle (arc : Arc K) (r a1 d t c sn : K) (hr : arc.radii = ⟨r, r⟩)
+    (hx : Transc.cos arc.xrot * Transc.cos arc.xrot + Transc.sin arc.xrot * Transc.sin arc.xrot = 1)
+    (h1 : Transc.cos a1 * Transc.cos a1 + Transc.sin a1 * Transc.sin a1 = 1)
+    (hc : Transc.cos (a1 + d) = Transc.cos a1 * Transc.cos d - Transc.sin a1 * Transc.sin d)
+    (hs : Transc.sin (a1 + d) = Transc.sin a1 * Transc.cos d + Transc.cos a1 * Transc.sin d)
+    (hu : c * c + sn * sn = 1)
+    (hcos : Transc.cos d = 1 - 2 * (sn * sn)) (hsin : Transc.sin d = 2 * (sn * c))
+    (htan : Transc.tan (d * Scalar.half) * c = sn) (hcp : 0 < c) (ht0 : 0 ≤ t) (ht1 : t ≤ 1) :
+    r * r ≤ sqDist ((quadAt arc a1 d).sample t) arc.center
+    ∧ sqDist ((quadAt arc a1 d).sample t) arc.center
+        ≤ r * r * (1 + (sn * sn / (2 * c)) * (sn * sn / (2 * c))) := by
+  have e := quad_arc_deviation_circle_eq arc r a1 d t c sn hr hx h1 hc hs hu hcos hsin htan
+  have hτ : Transc.tan (d * Scalar.half) = sn / c := by
+    rw [eq_div_iff (ne_of_gt hcp)]; exact htan
+  rw [hτ] at e
+  set D := 2 * sn * (sn / c) * (t * (1 - t)) with hD
+  have hD0 : 0 ≤ D := by
+    have : 0 ≤ sn * (sn / c) := by
+      rw [mul_div_assoc']; exact div_nonneg (mul_self_nonneg sn) (le_of_lt hcp)
+    have h2 : 0 ≤ t * (1 - t) := mul_nonneg ht0 (by linarith)
+    have : D = 2 * (sn * (sn / c)) * (t * (1 - t)) := by rw [hD]; ring
+    rw [this]; positivity
+  have hD1 : D ≤ sn * sn / (2 * c) := by
+    have h4 : t * (1 - t) ≤ 1 / 4 := by nlinarith [mul_self_nonneg (t - 1 / 2)]
+    have hs2 : 0 ≤ sn * sn / c := div_nonneg (mul_self_nonneg sn) (le_of_lt hcp)
+    have e1 : D = 2 * (sn * sn / c) * (t * (1 - t)) := by rw [hD]; ring
+    have e2 : sn * sn / (2 * c) = 2 * (sn * sn / c) * (1 / 4) := by field_simp; ring
+    rw [e1, e2]
+    exact mul_le_mul_of_nonneg_left h4 (by positivity)
+  have hr2 : 0 ≤ r * r := mul_self_nonneg r
+  constructor
+  · nlinarith [mul_nonneg hr2 (mul_self_nonneg D)]
+  · have : D * D ≤ (sn * sn / (2 * c)) * (sn * sn / (2 * c)) := mul_self_le_mul_self hD0 hD1
+    nlinarith [mul_le_mul_of_nonneg_left this hr2]
+
+/-- the point of the ellipse's plane that the unit-circle frame point `p` is mapped to:
+`centre + Rot(x_rotation)·(rx·p.x, ry·p.y)`; the arc's point at angle `θ` is `ellMap arc (cos θ, sin θ)` -/
+noncomputable def ellMap (arc : Arc K) (p : P K) : P K :=
+  arc.center + Arc.rotate arc.xrot ⟨arc.radii.x * p.x, arc.radii.y * p.y⟩
+
+/-- the unit circle arc with the same angles -/
+noncomputable def unitArc (arc : Arc K) : Arc K := ⟨⟨0, 0⟩, ⟨1, 1⟩, arc.start, arc.sweep, 0⟩
+
+/-- **a quadratic piece of an elliptic arc is the affine image of the piece of the unit circle**
+(same start angle and step) under `ellMap`, parameter by parameter. -/
+theorem quad_piece_affine_image (arc : Arc K) (a1 d t : K)
+    (h0c : Transc.cos (0 : K) = 1) (h0s : Transc.sin (0 : K) = 0) :
+    (quadAt arc a1 d).sample t = ellMap arc ((quadAt (unitArc arc) a1 d).sample t) := by
+  apply P.ext' <;>
+  · simp only [quadAt, quadCtrl, ellMap, unitArc, Quad.sample, pointAt, tangentAtAngle,
+      Arc.sampleEllipse, Arc.rotate, geom, h0c, h0s, Nat.cast_ofNat, Nat.cast_one]
+    ring
+
+/-- `ellMap` stretches distances by at most the larger radius -/
+theorem ellMap_sqDist_le (arc : Arc K) (p u : P K) (m : K)
+    (hx : Transc.cos arc.xrot * Transc.cos arc.xrot + Transc.sin arc.xrot * Transc.sin arc.xrot = 1)
+    (hmx : |arc.radii.x| ≤ m) (hmy : |arc.radii.y| ≤ m) :
+    sqDist (ellMap arc p) (ellMap arc u) ≤ m * m * sqDist p u := by
+  have e : sqDist (ellMap arc p) (ellMap arc u)
+      = arc.radii.x * arc.radii.x * ((p.x - u.x) * (p.x - u.x))
+        + arc.radii.y * arc.radii.y * ((p.y - u.y) * (p.y - u.y)) := by
+    simp only [sqDist, ellMap, Arc.rotate, geom]
+    linear_combination (arc.radii.x * arc.radii.x * ((p.x - u.x) * (p.x - u.x))
+        + arc.radii.y * arc.radii.y * ((p.y - u.y) * (p.y - u.y))) * hx
+  have h1 : arc.radii.x * arc.radii.x ≤ m * m := by
+    rw [← abs_mul_abs_self arc.radii.x]; exact mul_self_le_mul_self (abs_nonneg _) hmx
+  have h2 : arc.radii.y * arc.radii.y ≤ m * m := by
+    rw [← abs_mul_abs_self arc.radii.y]; exact mul_self_le_mul_self (abs_nonneg _) hmy
+  rw [e]
+  simp only [sqDist]
+  nlinarith [mul_le_mul_of_nonneg_right h1 (mul_self_nonneg (p.x - u.x)),
+    mul_le_mul_of_nonneg_right h2 (mul_self_nonneg (p.y - u.y))]
+
 /-! ## §4 euclid's `fast_atan2` is not an exact angle function -/
 
 section witness
@@ -935,6 +1087,106 @@ theorem sinSign_real : SinSign ℝ where
     have h1' : x ≤ -Real.pi := h1
     have := Real.sin_nonneg_of_nonneg_of_le_pi (x := x + 2 * Real.pi) (by linarith) (by linarith)
     rwa [Real.sin_add_two_pi] at this
+
+/-! ### the deviation bound over `ℝ`: 0.32 % of the radius for steps up to 45° -/
+
+theorem sqrt_two_gt : (14142 / 10000 : ℝ) < Real.sqrt 2 := by
+  rw [Real.lt_sqrt (by norm_num)]; norm_num
+
+/-- half-angle data of a step `|δ| ≤ π/4` -/
+theorem half_angle_real (d : ℝ) (hd : |d| ≤ Real.pi / 4) :
+    Real.cos (d / 2) * Real.cos (d / 2) + Real.sin (d / 2) * Real.sin (d / 2) = 1
+    ∧ Real.cos d = 1 - 2 * (Real.sin (d / 2) * Real.sin (d / 2))
+    ∧ Real.sin d = 2 * (Real.sin (d / 2) * Real.cos (d / 2))
+    ∧ Real.tan (d * Scalar.half) * Real.cos (d / 2) = Real.sin (d / 2)
+    ∧ 0 < Real.cos (d / 2)
+    ∧ (7071 / 10000 : ℝ) ≤ Real.cos d := by
+  have hpi := Real.pi_pos
+  obtain ⟨hl, hu⟩ := abs_le.mp hd
+  have hsc := Real.sin_sq_add_cos_sq (d / 2)
+  have hcp : 0 < Real.cos (d / 2) :=
+    Real.cos_pos_of_mem_Ioo ⟨by linarith, by linarith⟩
+  have h2 : Real.cos d = 2 * Real.cos (d / 2) ^ 2 - 1 := by
+    have := Real.cos_two_mul (d / 2)
+    rwa [show 2 * (d / 2) = d by ring] at this
+  have h1 : Real.sin d = 2 * Real.sin (d / 2) * Real.cos (d / 2) := by
+    have := Real.sin_two_mul (d / 2)
+    rwa [show 2 * (d / 2) = d by ring] at this
+  have hh : (Scalar.half : ℝ) = 1 / 2 := sc_half
+  refine ⟨by nlinarith, by nlinarith, by rw [h1]; ring, ?_, hcp, ?_⟩
+  · rw [hh, show d * (1 / 2 : ℝ) = d / 2 by ring, Real.tan_eq_sin_div_cos,
+      div_mul_cancel₀ _ (ne_of_gt hcp)]
+  · have hc4 : Real.cos (Real.pi / 4) ≤ Real.cos |d| :=
+      Real.cos_le_cos_of_nonneg_of_le_pi (abs_nonneg d) (by linarith) hd
+    rw [Real.cos_abs, Real.cos_pi_div_four] at hc4
+    have := sqrt_two_gt
+    linarith
+
+/-- **`quad_arc_deviation_circle` over `ℝ`, numerically**: a quadratic piece of a circular arc of
+radius `r ≥ 0` with a step of at most 45° (lyon's `n_steps = ⌈|sweep|/(π/4)⌉` guarantees this) stays
+outside the circle and within `0.32 %` of the radius of it, for every start angle, x-rotation and
+`t ∈ [0,1]`: `r ≤ |Q(t) − centre| ≤ 1.0032·r`.  (The exact maximum, at `δ = π/4`, `t = 1/2`, is
+`r·(√(1 + (sin²(π/8)/(2cos(π/8)))²) − 1) = 3.14·10⁻³·r`; the oracle measures 3.2·10⁻³ incl. rounding.) -/
+theorem quad_arc_deviation_circle_real (arc : Arc ℝ) (r a1 d t : ℝ) (hr : arc.radii = ⟨r, r⟩)
+    (hr0 : 0 ≤ r) (hd : |d| ≤ Real.pi / 4) (ht0 : 0 ≤ t) (ht1 : t ≤ 1) :
+    r ≤ Real.sqrt (sqDist ((quadAt arc a1 d).sample t) arc.center)
+    ∧ Real.sqrt (sqDist ((quadAt arc a1 d).sample t) arc.center) ≤ r * (10032 / 10000) := by
+  obtain ⟨hu, hcos, hsin, htan, hcp, hK⟩ := half_angle_real d hd
+  obtain ⟨lo, hi⟩ := quad_arc_deviation_circle arc r a1 d t (Real.cos (d / 2)) (Real.sin (d / 2)) hr
+    (exactTrig_real.cos_sq_add_sin_sq _) (exactTrig_real.cos_sq_add_sin_sq _)
+    (Real.cos_add a1 d) (Real.sin_add a1 d) hu hcos hsin htan hcp ht0 ht1
+  set c := Real.cos (d / 2)
+  set sn := Real.sin (d / 2)
+  have hK1 : Real.cos d ≤ 1 := Real.cos_le_one d
+  have hX : sn * sn = (1 - Real.cos d) / 2 := by linarith
+  have hY : c * c = (1 + Real.cos d) / 2 := by linarith
+  have hbound : (sn * sn / (2 * c)) * (sn * sn / (2 * c)) ≤ 641 / 100000 := by
+    have e : (sn * sn / (2 * c)) * (sn * sn / (2 * c)) = (sn * sn) * (sn * sn) / (4 * (c * c)) := by
+      field_simp; ring
+    rw [e, hX, hY, div_le_iff₀ (by nlinarith)]
+    nlinarith
+  constructor
+  · calc r = Real.sqrt (r * r) := (Real.sqrt_mul_self hr0).symm
+      _ ≤ Real.sqrt (sqDist ((quadAt arc a1 d).sample t) arc.center) := Real.sqrt_le_sqrt lo
+  · rw [Real.sqrt_le_left (by positivity)]
+    have hr2 : 0 ≤ r * r := mul_self_nonneg r
+    nlinarith [mul_le_mul_of_nonneg_left hbound hr2]
+
+/-- **the affine-image corollary for ellipses**: every point of a quadratic piece (step ≤ 45°) of an
+elliptic arc — any radii, centre, x-rotation, start angle — is within `0.32 %` of the LARGER radius
+of a point of the ellipse (`ellMap arc u` with `u` on the unit circle; squared form). -/
+theorem quad_arc_deviation_ellipse_real (arc : Arc ℝ) (a1 d t : ℝ)
+    (hd : |d| ≤ Real.pi / 4) (ht0 : 0 ≤ t) (ht1 : t ≤ 1) :
+    ∃ u : P ℝ, u.x * u.x + u.y * u.y = 1
+      ∧ sqDist ((quadAt arc a1 d).sample t) (ellMap arc u)
+          ≤ (Max.max |arc.radii.x| |arc.radii.y| * (32 / 10000)) * (Max.max |arc.radii.x| |arc.radii.y| * (32 / 10000)) := by
+  have h0c : Transc.cos (0 : ℝ) = 1 := Real.cos_zero
+  have h0s : Transc.sin (0 : ℝ) = 0 := Real.sin_zero
+  set Q := (quadAt (unitArc arc) a1 d).sample t with hQ
+  obtain ⟨lo, hi⟩ := quad_arc_deviation_circle_real (unitArc arc) 1 a1 d t rfl zero_le_one hd ht0 ht1
+  rw [← hQ] at lo hi
+  have hsq : sqDist Q (unitArc arc).center = Q.x * Q.x + Q.y * Q.y := by
+    simp [sqDist, unitArc]
+  rw [hsq] at lo hi
+  set ρ := Real.sqrt (Q.x * Q.x + Q.y * Q.y) with hρ
+  have hρ2 : ρ * ρ = Q.x * Q.x + Q.y * Q.y :=
+    Real.mul_self_sqrt (add_nonneg (mul_self_nonneg _) (mul_self_nonneg _))
+  have hρ0 : ρ ≠ 0 := by linarith
+  refine ⟨⟨Q.x / ρ, Q.y / ρ⟩, ?_, ?_⟩
+  · show Q.x / ρ * (Q.x / ρ) + Q.y / ρ * (Q.y / ρ) = 1
+    field_simp; linarith
+  · rw [quad_piece_affine_image arc a1 d t h0c h0s, ← hQ]
+    have hm := ellMap_sqDist_le arc Q ⟨Q.x / ρ, Q.y / ρ⟩ (Max.max |arc.radii.x| |arc.radii.y|)
+      (exactTrig_real.cos_sq_add_sin_sq _) (le_max_left _ _) (le_max_right _ _)
+    have hdist : sqDist Q ⟨Q.x / ρ, Q.y / ρ⟩ = (ρ - 1) * (ρ - 1) := by
+      simp only [sqDist]
+      field_simp
+      nlinarith [hρ2]
+    rw [hdist] at hm
+    have hm0 : 0 ≤ Max.max |arc.radii.x| |arc.radii.y| := le_trans (abs_nonneg _) (le_max_left _ _)
+    have h32 : (ρ - 1) * (ρ - 1) ≤ (32 / 10000) * (32 / 10000) :=
+      mul_self_le_mul_self (by linarith) (by linarith)
+    nlinarith [mul_le_mul_of_nonneg_left h32 (mul_self_nonneg (Max.max |arc.radii.x| |arc.radii.y|))]
 
 /-- the float→int cast hypothesis `hcast` of §1 holds for every real arc -/
 theorem cast_faithful_real (arc : Arc ℝ) :
